@@ -136,6 +136,11 @@ Theorem swap_correct_any s x y all_levels L r s' :
   match all_levels with Some al => levels_ok s al | None => True end →
   swap x y all_levels s = (r, s') →
   r = Err EOracle ∨
+  (r = Err ERuntime ∧ is_Some (max_nodes s) ∧
+   match all_levels with
+   | Some _ => s' = s
+   | None => collect_garbage None s = (Ok tt, s')
+   end) ∨
   ∃ oldn newn al', r = Ok ((oldn, newn), al') ∧
     Inv s' ∧ Counts s' L ∧ levels_ok s' al' ∧ oldn ≤ len s ∧ newn = len s' ∧
     (∀ v l, vars s !! v = Some l →
@@ -150,6 +155,7 @@ Proof.
             nvars s1 = nvars s → vars s1 = vars s → levels_ok s1 al →
             swap x y (Some al) s1 = (r, s') →
             r = Err EOracle ∨
+            (r = Err ERuntime ∧ s' = s1 ∧ is_Some (max_nodes s1)) ∨
             ∃ oldn newn al', r = Ok ((oldn, newn), al') ∧
               Inv s' ∧ Counts s' L ∧ levels_ok s' al' ∧ oldn = len s1 ∧ newn = len s' ∧
               (∀ v l, vars s !! v = Some l →
@@ -161,17 +167,18 @@ Proof.
   { intros s1 al HI1 HC1 Hll1 Hn1 Hv1 Hal1 Hrun1.
     destruct Hxy as [->| ->].
     - destruct (swap_correct s1 x al L r s' HI1 HC1 Hll1 ltac:(lia) Hal1 Hrun1)
-        as [->|(oldn&newn&al'&->&?&?&?&?&?&Hv&?&?&_&?)]; [by left|right].
+        as [->|[?|(oldn&newn&al'&->&?&?&?&?&?&Hv&?&?&_&?)]]; [by left|by right; left|right; right].
       exists oldn, newn, al'. split_and!; try done. intros v l Hvl. rewrite <- Hv1 in Hvl.
       by rewrite (Hv v l Hvl).
     - rewrite swap_sym in Hrun1 by lia.
       destruct (swap_correct s1 y al L r s' HI1 HC1 Hll1 ltac:(lia) Hal1 Hrun1)
-        as [->|(oldn&newn&al'&->&?&?&?&?&?&Hv&?&?&_&?)]; [by left|right].
+        as [->|[?|(oldn&newn&al'&->&?&?&?&?&?&Hv&?&?&_&?)]]; [by left|by right; left|right; right].
       exists oldn, newn, al'. split_and!; try done. intros v l Hvl. rewrite <- Hv1 in Hvl.
       rewrite (Hv v l Hvl). f_equal. repeat case_decide; lia. }
   destruct all_levels as [al|].
   - destruct (Hgen s al HI HC Hll eq_refl eq_refl Hal Hrun)
-      as [->|(oldn&newn&al'&->&?&?&?&->&?&?&HD&Hkeep&?)]; [by left|right].
+      as [->|[(->&->&?)|(oldn&newn&al'&->&?&?&?&->&?&?&HD&Hkeep&?)]];
+      [by left|by right; left|right; right].
     exists (len s), newn, al'. split_and!; try done.
     intros u Hu0 Hu.
     assert (valid s u) as Hvu.
@@ -186,8 +193,12 @@ Proof.
     destruct (gc_exact s L rg s1 HI HC Egc) as (->&HI1&HC1&_&Hv1&Hl1&Hll1&Hdom1&Hsub1).
     destruct (levels_spec s1 HI1) as (al&Hlev&Hal1). rewrite Hlev in Hrun.
     assert (Hn1 : nvars s1 = nvars s) by (unfold nvars; by rewrite Hv1).
+    assert (Hmx1 : max_nodes s1 = max_nodes s).
+    { destruct (gc_safe None s L (Ok tt) s1 HI HC I Egc) as (_&_&_&_&_&_&Hfr1&_).
+      by apply frame_max_nodes. }
     destruct (Hgen s1 al HI1 HC1 ltac:(congruence) Hn1 Hv1 Hal1 Hrun)
-      as [->|(oldn&newn&al'&->&?&?&?&->&?&?&HD&Hkeep&?)]; [by left|right].
+      as [->|[(->&->&?)|(oldn&newn&al'&->&?&?&?&->&?&?&HD&Hkeep&?)]];
+      [by left|right; left; split_and!; [done|congruence|done]|right; right].
     exists (len s1), newn, al'. split_and!; try done.
     + assert (dom (succ s1) ⊆ dom (succ s)) as Hd.
       { intros n Hn. apply elem_of_dom in Hn as [t Ht]. apply elem_of_dom. eauto. }
@@ -210,6 +221,9 @@ Theorem swap_pub_correct s x y L r s' :
   y = x + 1 ∨ x = y + 1 → x < nvars s → y < nvars s →
   swap_pub x y s = (r, s') →
   r = Err EOracle ∨
+  (r = Err ERuntime ∧ is_Some (max_nodes s) ∧
+   ∃ s1, collect_garbage None (s <| last_len := None |>) = (Ok tt, s1) ∧
+         s' = s1 <| last_len := last_len s |>) ∨
   ∃ oldn newn al', r = Ok ((oldn, newn), al') ∧
     Inv s' ∧ Counts s' L ∧ levels_ok s' al' ∧ oldn ≤ len s ∧ newn = len s' ∧
     (∀ v l, vars s !! v = Some l →
@@ -227,9 +241,11 @@ Proof.
     assert (Hc : catch (swap x y None) s1 = (Ok r0, s2)) by (unfold catch; by rewrite Hsw).
     rewrite (bind_ok _ _ _ _ _ Hc). cbn [bind modify].
     destruct (swap_correct_any s1 x y None L r0 s2 HI1 HC1 eq_refl Hxy Hx Hy I Hsw)
-      as [->|(oldn&newn&al'&->&HI2&HC2&Hal2&Ho&Hn&Hv&HD&_)].
+      as [->|[(->&Hmx&Hgc)|(oldn&newn&al'&->&HI2&HC2&Hal2&Ho&Hn&Hv&HD&_)]].
     { intros [= <- <-]. by left. }
-    cbn [reraise ret]. intros [= <- <-]. right. exists oldn, newn, al'.
+    { cbn [reraise raise]. intros [= <- <-]. right. left. split_and!; [done|done|].
+      exists s2. done. }
+    cbn [reraise ret]. intros [= <- <-]. right. right. exists oldn, newn, al'.
     set (s3 := s2 <| last_len := Some ll |>).
     split_and!; try done.
     + apply (Inv_same s2); [by repeat split|done].
@@ -238,6 +254,11 @@ Proof.
       rewrite (HDu ρ). unfold denv. by apply D_same.
   - intros Hsw.
     destruct (swap_correct_any s x y None L r s' HI HC Ell Hxy Hx Hy I Hsw)
-      as [->|(oldn&newn&al'&->&?&?&?&?&?&?&?&?)]; [by left|right].
+      as [->|[(->&Hmx&Hgc)|(oldn&newn&al'&->&?&?&?&?&?&?&?&?)]]; [by left| |right; right].
+    { right. left. split_and!; [done|done|]. exists s'.
+      assert (Es : s <| last_len := None |> = s) by (destruct s; cbn in *; by subst).
+      rewrite Es. split; [done|].
+      destruct (gc_safe None s L (Ok tt) s' HI HC I Hgc) as (_&_&_&_&_&_&(Hl&_)&_).
+      rewrite Ell in Hl. destruct s'; cbn in *; by subst. }
     exists oldn, newn, al'. split_and!; try done.
 Qed.
